@@ -34,9 +34,9 @@ def run(res):
                         "files with an open writer at the time of the fault, and the target of the faulted operation, count as 'being modified'"]
     ok, why = vlib.proof_side(res, PID)
     exe = vlib.build_harness("asan")
-    nh = 12 if res.tier == "quick" else 96
+    nh = 13 if res.tier == "quick" else 104
     per = 25 if res.tier == "quick" else 400
-    mix = [("file", {"nops": 30}), ("chainops", {}), ("seqread", {}), ("seekread", {}), ("names", {"nops": 40}), ("seqread", {}), ("file", {"nops": 30, "nfiles": 2}), ("chainops", {}), ("seekread", {}), ("dirc", {"nops": 20}), ("seqread", {}), ("extbound", {})]
+    mix = [("file", {"nops": 30}), ("chainops", {}), ("seqread", {}), ("seekread", {}), ("names", {"nops": 40}), ("seqread", {}), ("file", {"nops": 30, "nfiles": 2}), ("chainops", {}), ("seekread", {}), ("dirc", {"nops": 20}), ("seqread", {}), ("extbound", {}), ("bigrm", {})]
     jobs = []
     for i in range(nh):
         prof, kw = mix[i % len(mix)]
@@ -50,7 +50,7 @@ def run(res):
         counts = access_counts(cb)
         cand = [(j, k) for j in range(6, len(ops)) for k in range(counts[j])]
         rng.shuffle(cand)
-        if prof in ("names", "dirc", "chainops"):
+        if prof in ("names", "dirc", "chainops", "bigrm"):
             # namespace operations rewrite blocks of OTHER entries (chain predecessors, parents, cache blocks): for a few of
             # them EVERY access is made to fail in turn, so that each read-modify-write of a neighbour is hit
             nsops = [j for j in range(6, len(ops)) if ops[j].split()[0] in ("remove", "rename", "mkdir", "comment", "access") and counts[j] > 2]
